@@ -60,7 +60,7 @@ AddEnt == /\ Scope = "fields" /\ phase \in {1, 2}
           /\ \E e \in EntsPool : DistinctKeys(Append(blk.ents, e)) /\ blk' = [blk EXCEPT !.ents = Append(@, e)]
           /\ phase' = phase + 1 /\ UNCHANGED <<d, tn, tk, bk, nblk>>
 \* targets scope: binding kind x number of blocks x target kind, over a few descriptors and blocks
-TKinds == {"ptr-struct", "ptr-slice", "nil", "struct", "nilptr-struct", "ptr-int", "ptr-string", "ptr-map", "ptr-slice-int",
+TKinds == {"ptr-struct", "ptr-slice", "nil", "struct", "nilptr-struct", "nilptr-slice", "ptr-int", "ptr-string", "ptr-map", "ptr-slice-int",
            "ptr-slice-ptr", "ptr-ptr-struct", "slice", "ptr-array", "ptr-iface", "ptr-func", "ptr-chan"}
 \* (descriptor, type name): anonymous struct types and the declared types of the harness catalogue
 TDescs == { <<<<1, 3>>, <<>>>>, <<<<3>>, <<>>>>, <<<<2, 3>>, <<>>>>, <<<<1, 3>>, B("T")>>, <<<<3>>, B("FooBar")>>, <<<<1, 4>>, B("Srv")>>,
